@@ -99,7 +99,7 @@ def run_rtc_subprocess(drv, prop, tier, seed, jobs, budget):
     out.close()
     code = (
         "import sys, pickle; sys.path.insert(0, %r); import importlib; m = importlib.import_module('rtc.%s'); "
-        "r = m.run(%r, %r, %d, %d); pickle.dump(r, open(%r, 'wb'))" % (HERE, drv, prop, tier, seed, jobs, out.name)
+        "r = m.run(%r, %r, %d, %d); pickle.dump(dict(json=r.to_json(), failures=r.failures, evaluations=r.evaluations, distinct=r.distinct_nontrivial), open(%r, 'wb'))" % (HERE, drv, prop, tier, seed, jobs, out.name)
     )
     try:
         p = subprocess.run([VENV_PY, "-c", code], capture_output=True, text=True, timeout=budget, cwd=HERE, env=dict(os.environ, PYTHONPATH=HERE))
@@ -295,12 +295,12 @@ def main():
                 else:
                     crashes.append("bounded driver %s crashed:\n%s" % (drv, err))
                 continue
-            j = res.to_json()
-            rtc_eval += res.evaluations
-            rtc_distinct += res.distinct_nontrivial
+            j = res["json"]
+            rtc_eval += res["evaluations"]
+            rtc_distinct += res["distinct"]
             rtc_samples += j["samples"][:4]
             kf = 0
-            for i, f in enumerate(res.failures):
+            for i, f in enumerate(res["failures"]):
                 k = match_known(known, prop, "rtc", contract=f["contract"], tags=f["tags"])
                 if k is not None:
                     kf += 1
